@@ -113,8 +113,9 @@ def judge(e, name, is_none, r, ia, iv, added, ext_ok, total, conc, canary):
             report(e, 'spurious-conflict', what='%s reports a conflict although a total extension avoids all added nogoods' % name, case=conc(m), api=name)
         return
     ra, rv = r
-    conds = [z3.Not(contains(ra, rv, ia, iv))]                                    # the answer extends the interpretation
-    conds += [z3.And(ext_ok[t], z3.Not(matches_total(ra, rv, t))) for t in total]  # every concluded literal is forced
+    # every literal of the answer is forced: it holds in every total extension of the interpretation that avoids all added nogoods
+    # (the interpretation's own literals hold there trivially; whether the answer repeats them is not prescribed by the property)
+    conds = [z3.And(ext_ok[t], z3.Not(matches_total(ra, rv, t))) for t in total]
     m = sat_model(e, z3.Or(*conds))
     if m is not None:
         report(e, 'unsound-conclusion', what='%s concludes (active=%s,value=%s), which is not forced by the added nogoods' % (name, bin(mint(m, ra)), bin(mint(m, rv))), case=conc(m), api=name)
@@ -135,7 +136,6 @@ def py_judge(case, out):
             if good: probs.append('%s: conflict although assignment %s avoids all added nogoods' % (name, bin(good[0])))
         else:
             ra, rv = r
-            if (ra & ia) != ia or (rv & ia) != iv: probs.append('%s: answer does not extend the interpretation' % name)
             if any((t & ra) != rv for t in good): probs.append('%s: concluded literal not forced' % name)
             if any((ia & a) == a and (iv & a) == v for a, v in ngs): probs.append('%s: no conflict although the interpretation matches an added nogood' % name)
     return probs
